@@ -254,8 +254,8 @@ func runCheck(o checkOpts) checkOutcome {
 				if ob.status != "sat" {
 					// contradictory precondition (or solver could not show satisfiable)
 					if ob.status == "unsat" {
-						say("cannot decide: precondition of %s is contradictory (vacuous contract)\n", r.name)
-						undecided = append(undecided, "vacuous precondition "+r.name)
+						say("cannot decide: %s is unsatisfiable — contradictory precondition or assumptions (vacuous proof)\n", ob.name)
+						undecided = append(undecided, "vacuous: "+ob.name)
 						exit = 2
 					} else if o.verbose {
 						say("note: cover query for %s undecided (%s)\n", r.name, ob.status)
